@@ -372,6 +372,35 @@ pub fn sites(tier: Tier) -> Vec<Site> {
         ));
     }
 
+    // 3b. (thorough) mutation distance 2 on ANY two of the first 12 bytes, over the 16-symbol alphabet
+    if tier == Tier::Thorough {
+        let all: Vec<(String, bool, Vec<u8>)> = fr.iter().cloned().collect();
+        let all = Arc::new(all);
+        let mut pairs: Vec<(usize, usize)> = vec![];
+        for p in 0..12 { for q in (p + 1)..12 { pairs.push((p, q)); } }
+        let pairs = Arc::new(pairs);
+        let per_frame = pairs.len() as u64 * 256;
+        let total = all.len() as u64 * per_frame;
+        sites.push(Site::new("mutation-2-any",
+            total,
+            "every reference frame (B0 and B1, both modes) x every pair of positions among the first 12 bytes x all pairs over the 16-symbol alphabet, followed by a sentinel TINY",
+            move |i, acc| {
+                let fi = (i / per_frame) as usize;
+                let r = i % per_frame;
+                let (p, q) = pairs[(r / 256) as usize];
+                let a = ALPHA16[((r / 16) % 16) as usize];
+                let b = ALPHA16[(r % 16) as usize];
+                let (name, compressed, frame) = &all[fi];
+                if q >= frame.len() { return; }
+                let mut buf = frame.clone();
+                buf[p] = a;
+                buf[q] = b;
+                buf.extend_from_slice(if *compressed { &SENTINEL_C } else { &SENTINEL_U });
+                let replay = json!({"site": "mutation-2-any", "index": i, "frame": name, "positions": [p, q], "values": [a, b], "input": hex(&buf[..buf.len().min(64)])});
+                judge(*compressed, &buf, i, replay, acc);
+            }));
+    }
+
     // 4. all short buffers over a 16-symbol alphabet
     let maxlen = if tier == Tier::Thorough { 6 } else { 5 };
     let mut count = 0u64;
